@@ -5,6 +5,7 @@ package main
 
 import (
 	"fmt"
+	"go/constant"
 	"go/token"
 	"go/types"
 	"sort"
@@ -556,79 +557,229 @@ type pathEnd struct {
 // enumPaths walks the CFG of fn from its entry. eval decides branch conditions
 // under an abstract input (known=false explores both successors); event labels
 // the instructions of interest. The enumeration is bounded by max paths.
+//
+// The walk is robust against ordinary restructuring of the code:
+//   - boolean values are evaluated path-sensitively: a phi produced by `a && b`
+//     or by a named boolean local takes the value of the edge the path came by;
+//   - a condition that is a call of a pure boolean module helper is evaluated on
+//     the helper's own CFG with its parameters bound to the caller's arguments;
+//   - a call of a module function whose body (transitively) contains an event is
+//     expanded in line (callee parameters bound to the arguments), so extracting
+//     part of a function into a helper does not hide its events;
+//   - arrivals at a block with the same event history, boolean phi choices and
+//     loop state are merged, so branches without events do not multiply paths.
 func (w *World) enumPaths(fn *ssa.Function, eval func(cond ssa.Value) (val bool, known bool), event func(in ssa.Instruction) string, max int) ([]pathEnd, bool) {
-	var out []pathEnd
-	complete := true
-	// events are labelled once per instruction, so that two paths through the same
-	// instructions carry the same labels
-	evCache := map[ssa.Instruction]string{}
-	rawEvent := event
-	event = func(in ssa.Instruction) string {
-		if e, ok := evCache[in]; ok {
-			return e
-		}
-		e := rawEvent(in)
-		evCache[in] = e
-		return e
+	e := &enumerator{w: w, eval: eval, event: event, max: max, complete: true, evCache: map[ssa.Instruction]string{}, hasEv: map[*ssa.Function]int{}}
+	if len(fn.Blocks) == 0 {
+		return nil, true
 	}
-	// two arrivals at a block with the same event history and the same
-	// loop-relevant part of the current path have identical continuations:
-	// explore only the first (branches without events do not multiply paths)
+	e.walkFn(fn, nil, 0, func(ev []string, ret *ssa.Return, term string) {
+		if term == "" && ret != nil {
+			term = "ok"
+			if st := w.errState(ret); st == triNonNil {
+				term = "err"
+			} else if st == triUnknown {
+				term = "unknown"
+			}
+		}
+		e.out = append(e.out, pathEnd{append([]string(nil), ev...), term})
+	})
+	return e.out, e.complete
+}
+
+type enumerator struct {
+	w        *World
+	eval     func(ssa.Value) (bool, bool)
+	event    func(ssa.Instruction) string
+	max      int
+	out      []pathEnd
+	complete bool
+	evCache  map[ssa.Instruction]string
+	hasEv    map[*ssa.Function]int // 0 unknown, 1 yes, 2 no, 3 in progress
+	nAct     int
+	// pathSensitiveEvents: labels may depend on the path (they use ResolveOnPath)
+	pathSensitiveEvents bool
+}
+
+type pathState struct {
+	onPath map[*ssa.BasicBlock]int
+	phi    map[*ssa.Phi]ssa.Value
+}
+
+func (e *enumerator) label(in ssa.Instruction, depth int) string {
+	if e.pathSensitiveEvents {
+		return e.event(in)
+	}
+	if depth > 0 {
+		return e.event(in) // canonical strings depend on the inlining environment
+	}
+	if s, ok := e.evCache[in]; ok {
+		return s
+	}
+	s := e.event(in)
+	e.evCache[in] = s
+	return s
+}
+
+// bearsEvents: does fn (or a module callee, two levels down) contain an event?
+func (e *enumerator) bearsEvents(fn *ssa.Function, d int) bool {
+	if fn == nil || fn.Blocks == nil || !e.w.InModule(fn) || d > 2 {
+		return false
+	}
+	switch e.hasEv[fn] {
+	case 1:
+		return true
+	case 2, 3:
+		return false
+	}
+	e.hasEv[fn] = 3
+	res := false
+	for _, b := range fn.Blocks {
+		for _, in := range b.Instrs {
+			if e.event(in) != "" {
+				res = true
+			}
+			if c, ok := in.(*ssa.Call); ok && !res {
+				if cal := c.Common().StaticCallee(); cal != nil && cal != fn && e.bearsEvents(cal, d+1) {
+					res = true
+				}
+			}
+		}
+	}
+	if res {
+		e.hasEv[fn] = 1
+	} else {
+		e.hasEv[fn] = 2
+	}
+	return res
+}
+
+func (e *enumerator) walkFn(fn *ssa.Function, ev []string, depth int, k func(ev []string, ret *ssa.Return, term string)) {
+	e.nAct++
+	act := e.nAct
 	reach := blockReach(fn)
 	visited := map[string]bool{}
-	sig := func(b *ssa.BasicBlock, ev []string, onPath map[*ssa.BasicBlock]int) string {
+	st := &pathState{onPath: map[*ssa.BasicBlock]int{}, phi: map[*ssa.Phi]ssa.Value{}}
+	sig := func(b *ssa.BasicBlock, from int, ev []string) string {
 		var lp []string
-		for ob, c := range onPath {
+		for ob, c := range st.onPath {
 			if c > 0 && reach[b.Index][ob.Index] {
 				lp = append(lp, fmt.Sprintf("%d:%d", ob.Index, c))
 			}
 		}
 		sort.Strings(lp)
-		return fmt.Sprintf("%d|%s|%s", b.Index, strings.Join(ev, "\x00"), strings.Join(lp, ","))
+		var ph []string
+		for p, v := range st.phi {
+			if isBoolType(p.Type()) {
+				ph = append(ph, p.Name()+"="+v.Name())
+			}
+		}
+		sort.Strings(ph)
+		return fmt.Sprintf("%d|%d.%d|%s|%s|%s", act, b.Index, from, strings.Join(ev, "\x00"), strings.Join(lp, ","), strings.Join(ph, ","))
 	}
-	var walk func(b *ssa.BasicBlock, ev []string, onPath map[*ssa.BasicBlock]int)
-	walk = func(b *ssa.BasicBlock, ev []string, onPath map[*ssa.BasicBlock]int) {
-		if len(out) >= max {
-			complete = false
-			return
+	var walk func(b *ssa.BasicBlock, from int, ev []string)
+	enter := func(pred, b *ssa.BasicBlock, ev []string) {
+		// bind the phis of b to the edge taken
+		idx := -1
+		for i, p := range b.Preds {
+			if p == pred {
+				idx = i
+			}
 		}
-		if onPath[b] >= 2 {
-			out = append(out, pathEnd{append([]string(nil), ev...), "loop"})
-			return
+		var saved []struct {
+			p *ssa.Phi
+			v ssa.Value
+			h bool
 		}
-		if k := sig(b, ev, onPath); visited[k] {
-			return
-		} else {
-			visited[k] = true
-		}
-		onPath[b]++
-		defer func() { onPath[b]-- }()
 		for _, in := range b.Instrs {
-			if e := event(in); e != "" {
-				ev = append(ev, e)
+			ph, ok := in.(*ssa.Phi)
+			if !ok {
+				break
+			}
+			old, had := st.phi[ph]
+			saved = append(saved, struct {
+				p *ssa.Phi
+				v ssa.Value
+				h bool
+			}{ph, old, had})
+			if idx >= 0 {
+				st.phi[ph] = ph.Edges[idx]
+			}
+		}
+		walk(b, 0, ev)
+		for _, sv := range saved {
+			if sv.h {
+				st.phi[sv.p] = sv.v
+			} else {
+				delete(st.phi, sv.p)
+			}
+		}
+	}
+	walk = func(b *ssa.BasicBlock, from int, ev []string) {
+		if len(e.out) >= e.max {
+			e.complete = false
+			return
+		}
+		if from == 0 {
+			if st.onPath[b] >= 2 {
+				k(ev, nil, "loop")
+				return
+			}
+			key := sig(b, from, ev)
+			if visited[key] {
+				return
+			}
+			visited[key] = true
+			st.onPath[b]++
+			defer func() { st.onPath[b]-- }()
+		}
+		for i := from; i < len(b.Instrs); i++ {
+			in := b.Instrs[i]
+			e.w.cur = &pathCtxt{st: st, eval: e.eval}
+			lbl := e.label(in, depth)
+			if lbl != "" {
+				ev = append(append([]string(nil), ev...), lbl)
 			}
 			switch t := in.(type) {
-			case *ssa.Return:
-				term := "ok"
-				if st := w.errState(t); st == triNonNil {
-					term = "err"
-				} else if st == triUnknown {
-					term = "unknown"
+			case *ssa.Call:
+				cal := t.Common().StaticCallee()
+				if cal != nil && cal != fn && depth < 2 && lbl == "" && e.bearsEvents(cal, 0) && len(cal.Params) == len(t.Common().Args) {
+					env := map[*ssa.Parameter]string{}
+					for j, p := range cal.Params {
+						env[p] = e.w.Canon(e.resolve(t.Common().Args[j], st))
+					}
+					next := i + 1
+					e.w.inlineEnv = append(e.w.inlineEnv, env)
+					depthEnv := len(e.w.inlineEnv)
+					e.walkFn(cal, ev, depth+1, func(ev2 []string, ret *ssa.Return, term string) {
+						if term == "panic" || term == "loop" {
+							k(ev2, nil, term)
+							return
+						}
+						// continue the caller after the call, outside the callee's environment
+						savedEnv := e.w.inlineEnv
+						e.w.inlineEnv = e.w.inlineEnv[:depthEnv-1]
+						walk(b, next, ev2)
+						e.w.inlineEnv = savedEnv
+					})
+					e.w.inlineEnv = e.w.inlineEnv[:depthEnv-1]
+					return
 				}
-				out = append(out, pathEnd{append([]string(nil), ev...), term})
+			case *ssa.Return:
+				k(ev, t, "")
 				return
 			case *ssa.Panic:
-				out = append(out, pathEnd{append([]string(nil), ev...), "panic"})
+				k(ev, nil, "panic")
 				return
 			case *ssa.If:
-				v, known := eval(t.Cond)
+				v, known := e.w.evalBool(t.Cond, st, e.eval, 0)
 				cs := ""
-				if w.branchMarkers {
-					cs = w.Canon(t.Cond)
+				if e.w.branchMarkers {
+					cs = e.w.Canon(t.Cond)
 				}
 				mark := func(ev []string, taken bool) []string {
 					out := append([]string(nil), ev...)
-					if w.branchMarkers {
+					if e.w.branchMarkers {
 						if taken {
 							out = append(out, "?T:"+cs)
 						} else {
@@ -637,27 +788,267 @@ func (w *World) enumPaths(fn *ssa.Function, eval func(cond ssa.Value) (val bool,
 					}
 					return out
 				}
-				if known {
-					if v {
-						walk(b.Succs[0], mark(ev, true), onPath)
-					} else {
-						walk(b.Succs[1], mark(ev, false), onPath)
-					}
-				} else {
-					walk(b.Succs[0], mark(ev, true), onPath)
-					walk(b.Succs[1], mark(ev, false), onPath)
+				if !known || v {
+					enter(b, b.Succs[0], mark(ev, true))
+				}
+				if !known || !v {
+					enter(b, b.Succs[1], mark(ev, false))
 				}
 				return
 			case *ssa.Jump:
-				walk(b.Succs[0], ev, onPath)
+				enter(b, b.Succs[0], ev)
 				return
 			}
 		}
 	}
-	if len(fn.Blocks) > 0 {
-		walk(fn.Blocks[0], nil, map[*ssa.BasicBlock]int{})
+	walk(fn.Blocks[0], 0, ev)
+}
+
+func isBoolType(t types.Type) bool {
+	b, ok := t.Underlying().(*types.Basic)
+	return ok && b.Info()&types.IsBoolean != 0
+}
+
+// resolve replaces a phi by the value of the edge the current path came by.
+func (e *enumerator) resolve(v ssa.Value, st *pathState) ssa.Value {
+	for i := 0; i < 8; i++ {
+		ph, ok := v.(*ssa.Phi)
+		if !ok {
+			return v
+		}
+		nv, ok := st.phi[ph]
+		if !ok {
+			return v
+		}
+		v = nv
 	}
-	return out, complete
+	return v
+}
+
+// evalBool evaluates a boolean SSA value on the current path: constants,
+// negation, phis bound by the path, pure boolean helpers (evaluated on their own
+// CFG with parameters bound to the arguments); everything else goes to eval.
+func (w *World) evalBool(v ssa.Value, st *pathState, eval func(ssa.Value) (bool, bool), depth int) (bool, bool) {
+	switch x := v.(type) {
+	case *ssa.Const:
+		if x.Value != nil && x.Value.Kind() == constant.Bool {
+			return constant.BoolVal(x.Value), true
+		}
+	case *ssa.UnOp:
+		if x.Op == token.NOT {
+			b, ok := w.evalBool(x.X, st, eval, depth)
+			return !b, ok
+		}
+	case *ssa.Phi:
+		if st != nil {
+			if nv, ok := st.phi[x]; ok && nv != v {
+				return w.evalBool(nv, st, eval, depth)
+			}
+		}
+	case *ssa.BinOp:
+		// result of a module helper compared with nil: decided when the helper's
+		// feasible returns agree
+		if x.Op == token.EQL || x.Op == token.NEQ {
+			for _, pr := range [][2]ssa.Value{{x.X, x.Y}, {x.Y, x.X}} {
+				c, ok := pr[1].(*ssa.Const)
+				if !ok || !c.IsNil() {
+					continue
+				}
+				if b, ok := eval(v); ok {
+					return b, true
+				}
+				if n := w.nilnessOnPath(pr[0], st, eval, depth); n != 0 {
+					return (n < 0) == (x.Op == token.EQL), true
+				}
+			}
+		}
+		// b == true / b != false on a value we can evaluate structurally
+		if x.Op == token.EQL || x.Op == token.NEQ {
+			for _, pr := range [][2]ssa.Value{{x.X, x.Y}, {x.Y, x.X}} {
+				if c, ok := pr[1].(*ssa.Const); ok && c.Value != nil && c.Value.Kind() == constant.Bool && isBoolType(pr[0].Type()) {
+					if _, isParamOrField := pr[0].(*ssa.Phi); isParamOrField || isCallValue(pr[0]) {
+						b, ok := w.evalBool(pr[0], st, eval, depth)
+						if ok {
+							return (b == constant.BoolVal(c.Value)) == (x.Op == token.EQL), true
+						}
+					}
+				}
+			}
+		}
+	case *ssa.Call:
+		if b, ok := eval(v); ok {
+			return b, true
+		}
+		if cal := x.Common().StaticCallee(); cal != nil && depth < 3 && isBoolType(x.Type()) && w.pureFn(cal, 0) && len(cal.Params) == len(x.Common().Args) {
+			env := map[*ssa.Parameter]string{}
+			for j, p := range cal.Params {
+				a := x.Common().Args[j]
+				if st != nil {
+					if ph, isPhi := a.(*ssa.Phi); isPhi {
+						if nv, ok := st.phi[ph]; ok {
+							a = nv
+						}
+					}
+				}
+				env[p] = w.Canon(a)
+			}
+			w.inlineEnv = append(w.inlineEnv, env)
+			b, ok := w.evalFnBool(cal, eval, depth+1)
+			w.inlineEnv = w.inlineEnv[:len(w.inlineEnv)-1]
+			return b, ok
+		}
+		return false, false
+	}
+	return eval(v)
+}
+
+func isCallValue(v ssa.Value) bool { _, ok := v.(*ssa.Call); return ok }
+
+// evalFnBool: the boolean a pure helper returns under eval, if all feasible
+// paths agree.
+func (w *World) evalFnBool(fn *ssa.Function, eval func(ssa.Value) (bool, bool), depth int) (bool, bool) {
+	st := &pathState{onPath: map[*ssa.BasicBlock]int{}, phi: map[*ssa.Phi]ssa.Value{}}
+	seenT, seenF, unknown := false, false, false
+	budget := 256
+	var walk func(b, pred *ssa.BasicBlock)
+	walk = func(b, pred *ssa.BasicBlock) {
+		budget--
+		if budget < 0 || st.onPath[b] >= 2 {
+			unknown = true
+			return
+		}
+		st.onPath[b]++
+		defer func() { st.onPath[b]-- }()
+		idx := -1
+		for i, p := range b.Preds {
+			if p == pred {
+				idx = i
+			}
+		}
+		type sv struct {
+			p *ssa.Phi
+			v ssa.Value
+			h bool
+		}
+		var saved []sv
+		for _, in := range b.Instrs {
+			ph, ok := in.(*ssa.Phi)
+			if !ok {
+				break
+			}
+			old, had := st.phi[ph]
+			saved = append(saved, sv{ph, old, had})
+			if idx >= 0 {
+				st.phi[ph] = ph.Edges[idx]
+			}
+		}
+		defer func() {
+			for _, x := range saved {
+				if x.h {
+					st.phi[x.p] = x.v
+				} else {
+					delete(st.phi, x.p)
+				}
+			}
+		}()
+		switch t := lastInstr(b).(type) {
+		case *ssa.Return:
+			if len(t.Results) != 1 {
+				unknown = true
+				return
+			}
+			v, ok := w.evalBool(t.Results[0], st, eval, depth)
+			switch {
+			case !ok:
+				unknown = true
+			case v:
+				seenT = true
+			default:
+				seenF = true
+			}
+		case *ssa.If:
+			v, ok := w.evalBool(t.Cond, st, eval, depth)
+			if !ok || v {
+				walk(b.Succs[0], b)
+			}
+			if !ok || !v {
+				walk(b.Succs[1], b)
+			}
+		case *ssa.Jump:
+			walk(b.Succs[0], b)
+		default:
+			unknown = true
+		}
+	}
+	walk(fn.Blocks[0], nil)
+	if unknown || seenT == seenF {
+		return false, false
+	}
+	return seenT, true
+}
+
+// pureFn: a module function without stores (except into its own locals), map
+// updates, sends, defers or calls other than to pure module functions and
+// side-effect-free library routines.
+func (w *World) pureFn(fn *ssa.Function, d int) bool {
+	if fn == nil || fn.Blocks == nil || !w.InModule(fn) || d > 3 {
+		return false
+	}
+	if v, ok := w.pureMemo[fn]; ok {
+		return v
+	}
+	if w.pureMemo == nil {
+		w.pureMemo = map[*ssa.Function]bool{}
+	}
+	w.pureMemo[fn] = false // cycles are impure
+	ok := true
+	for _, b := range fn.Blocks {
+		for _, in := range b.Instrs {
+			switch x := in.(type) {
+			case *ssa.Store:
+				if _, local := x.Addr.(*ssa.Alloc); !local {
+					ok = false
+				}
+			case *ssa.MapUpdate, *ssa.Send, *ssa.Go, *ssa.Defer, *ssa.Panic:
+				ok = false
+			case ssa.CallInstruction:
+				c := x.Common()
+				if _, isB := c.Value.(*ssa.Builtin); isB {
+					continue
+				}
+				cal := c.StaticCallee()
+				switch {
+				case cal == nil:
+					ok = false
+				case w.InModule(cal):
+					if !w.pureFn(cal, d+1) {
+						ok = false
+					}
+				default:
+					if !pureLibrary(cal) {
+						ok = false
+					}
+				}
+			}
+		}
+	}
+	w.pureMemo[fn] = ok
+	return ok
+}
+
+func pureLibrary(f *ssa.Function) bool {
+	if f.Pkg == nil {
+		return false
+	}
+	switch f.Pkg.Pkg.Path() {
+	case "bytes":
+		return f.Name() == "Equal" || f.Name() == "Compare" || f.Name() == "HasPrefix"
+	case "strings":
+		return f.Name() == "HasPrefix" || f.Name() == "HasSuffix" || f.Name() == "Contains" || f.Name() == "EqualFold"
+	case "github.com/holiman/uint256":
+		return pureZMethods[f.Name()]
+	}
+	return false
 }
 
 // blockReach[i][j]: block j is reachable from block i along CFG edges (i != j
@@ -680,4 +1071,180 @@ func blockReach(fn *ssa.Function) [][]bool {
 		out[i] = row
 	}
 	return out
+}
+
+// ---- values on paths
+
+type pathCtxt struct {
+	st   *pathState
+	eval func(ssa.Value) (bool, bool)
+}
+
+// ResolveOnPath follows v to the value it has on the path being enumerated:
+// phis take the edge the path came by, results of module helpers are replaced
+// by the value the helper returns under the current abstract input when all its
+// feasible returns agree. Only meaningful inside an event callback of enumPaths.
+func (w *World) ResolveOnPath(v ssa.Value) ssa.Value {
+	if w.cur == nil {
+		return v
+	}
+	return w.resolveValue(v, w.cur.st, w.cur.eval, 0)
+}
+
+func (w *World) resolveValue(v ssa.Value, st *pathState, eval func(ssa.Value) (bool, bool), depth int) ssa.Value {
+	for i := 0; i < 12; i++ {
+		switch x := v.(type) {
+		case *ssa.Phi:
+			if st != nil {
+				if nv, ok := st.phi[x]; ok && nv != v {
+					v = nv
+					continue
+				}
+			}
+			return v
+		case *ssa.Extract:
+			if call, ok := x.Tuple.(*ssa.Call); ok {
+				if rv := w.helperResult(call, x.Index, st, eval, depth); rv != nil {
+					return rv
+				}
+			}
+			return v
+		case *ssa.Call:
+			if x.Common().Signature().Results().Len() == 1 {
+				if rv := w.helperResult(x, 0, st, eval, depth); rv != nil {
+					return rv
+				}
+			}
+			return v
+		case *ssa.ChangeInterface:
+			v = x.X
+			continue
+		}
+		return v
+	}
+	return v
+}
+
+// helperResult: the single value a static module callee returns at idx under eval.
+func (w *World) helperResult(call *ssa.Call, idx int, st *pathState, eval func(ssa.Value) (bool, bool), depth int) ssa.Value {
+	cal := call.Common().StaticCallee()
+	if cal == nil || !w.InModule(cal) || cal.Blocks == nil || depth > 2 || len(cal.Params) != len(call.Common().Args) {
+		return nil
+	}
+	env := map[*ssa.Parameter]string{}
+	for j, p := range cal.Params {
+		env[p] = w.Canon(w.resolveValue(call.Common().Args[j], st, eval, depth+1))
+	}
+	w.inlineEnv = append(w.inlineEnv, env)
+	vals, complete := w.returnedValues(cal, idx, eval, depth+1)
+	w.inlineEnv = w.inlineEnv[:len(w.inlineEnv)-1]
+	if !complete || len(vals) != 1 {
+		return nil
+	}
+	return vals[0]
+}
+
+// returnedValues: the distinct (resolved) values fn returns at idx on the paths
+// that are feasible under eval.
+func (w *World) returnedValues(fn *ssa.Function, idx int, eval func(ssa.Value) (bool, bool), depth int) ([]ssa.Value, bool) {
+	st := &pathState{onPath: map[*ssa.BasicBlock]int{}, phi: map[*ssa.Phi]ssa.Value{}}
+	var out []ssa.Value
+	complete := true
+	budget := 512
+	add := func(v ssa.Value) {
+		for _, o := range out {
+			if o == v {
+				return
+			}
+			// two nil constants / two allocations of the same type are the same answer
+			if co, ok := o.(*ssa.Const); ok {
+				if cv, ok := v.(*ssa.Const); ok && co.IsNil() && cv.IsNil() {
+					return
+				}
+			}
+		}
+		out = append(out, v)
+	}
+	var walk func(b, pred *ssa.BasicBlock)
+	walk = func(b, pred *ssa.BasicBlock) {
+		budget--
+		if budget < 0 || st.onPath[b] >= 2 {
+			complete = false
+			return
+		}
+		st.onPath[b]++
+		defer func() { st.onPath[b]-- }()
+		idxp := -1
+		for i, p := range b.Preds {
+			if p == pred {
+				idxp = i
+			}
+		}
+		type sv struct {
+			p *ssa.Phi
+			v ssa.Value
+			h bool
+		}
+		var saved []sv
+		for _, in := range b.Instrs {
+			ph, ok := in.(*ssa.Phi)
+			if !ok {
+				break
+			}
+			old, had := st.phi[ph]
+			saved = append(saved, sv{ph, old, had})
+			if idxp >= 0 {
+				st.phi[ph] = ph.Edges[idxp]
+			}
+		}
+		defer func() {
+			for _, x := range saved {
+				if x.h {
+					st.phi[x.p] = x.v
+				} else {
+					delete(st.phi, x.p)
+				}
+			}
+		}()
+		switch t := lastInstr(b).(type) {
+		case *ssa.Return:
+			if idx < len(t.Results) {
+				add(w.resolveValue(retResult(t, idx), st, eval, depth))
+			}
+		case *ssa.If:
+			v, ok := w.evalBool(t.Cond, st, eval, depth)
+			if !ok || v {
+				walk(b.Succs[0], b)
+			}
+			if !ok || !v {
+				walk(b.Succs[1], b)
+			}
+		case *ssa.Jump:
+			walk(b.Succs[0], b)
+		case *ssa.Panic:
+		default:
+			complete = false
+		}
+	}
+	walk(fn.Blocks[0], nil)
+	return out, complete
+}
+
+// nilnessOnPath: +1 v is certainly non-nil on this path, -1 certainly nil, 0 unknown.
+func (w *World) nilnessOnPath(v ssa.Value, st *pathState, eval func(ssa.Value) (bool, bool), depth int) int {
+	rv := w.resolveValue(v, st, eval, depth)
+	switch x := rv.(type) {
+	case *ssa.Const:
+		if x.IsNil() {
+			return -1
+		}
+	case *ssa.MakeInterface, *ssa.Alloc, *ssa.MakeSlice, *ssa.MakeMap, *ssa.MakeClosure:
+		return 1
+	case *ssa.UnOp:
+		// the package's error variables are never nil
+		if g, ok := x.X.(*ssa.Global); ok && x.Op == token.MUL && isErrorType(x.Type()) && strings.HasPrefix(g.Name(), "Err") {
+			return 1
+		}
+	}
+	return 0
 }
